@@ -330,6 +330,7 @@ def conversion(ck: Check, info):
                              {"sequence": [f"{b:08x}" for b in sq], "bits": f"{bits:08x}", "result": repr(real)})
     # 2. every paired class: from_pb on generated messages
     mods = {n: getattr(M, n) for n, _ in info["fields"]["classPairs"]}
+    wire2model = {w: m for m, w in info["enums"]["enumPairs"]}
     families = (M.EntityInfo, M.EntityState, M.DeviceInfo, M.UserService, M.UserServiceArg)
     n_per = 40 if thorough else 8
     from google.protobuf.descriptor import FieldDescriptor as FD
@@ -390,6 +391,14 @@ def conversion(ck: Check, info):
                     if mv != wv or type(mv) is not type(wv):
                         ck.violation(f"field-value:{cname}.{f.name}", f"{cname}.from_pb changed {f.name}: wire {wv!r}, model {mv!r}",
                                      {"class": cname, "field": f.name, "payload": msg.SerializeToString().hex()})
+                # the enum a field is converted with is given by the WIRE field's enum type (through the enum pairing), not by
+                # whatever converter the model class happens to name
+                if kind.startswith(("enum:", "enumlist:")) and fd.enum_type is not None:
+                    paired = wire2model.get(fd.enum_type.name)
+                    if paired is not None and paired != kind.split(":", 1)[1]:
+                        ck.violation(f"enum-field-type:{cname}.{f.name}", f"{cname}.{f.name} carries the wire enum {fd.enum_type.name} (model enum "
+                                     f"{paired}) but is converted with {kind.split(':', 1)[1]}", {"class": cname, "field": f.name})
+                        kind = kind.split(":", 1)[0] + ":" + paired
                 if kind.startswith("enum:"):
                     members = {int(x) for x in getattr(M, kind[5:])}
                     want = getattr(M, kind[5:])(wv) if wv in members else None
